@@ -1,0 +1,58 @@
+//go:build verif
+
+package mline
+
+// Contracts for govc (contract-based deductive verification, see /verif/DESIGN.md).
+// Comments only; compiled only with the build tag `verif`.
+
+//@ arith int
+//@ index elt
+//@ property C14
+//@ assumption mline: the callee of a call (user code) may use the MultiLine's public API and anything else, but cannot write the unexported fields of MultiLine and AsyncCtx
+//
+// the result of "the call of this request on this lane", as uninterpreted tags: used only to state that the value
+// handed to SetR is the result of the request's own call
+//@ opaque callres(ctx context.Context, lane int, req interface{}) interface{}
+//@ opaque callerr(ctx context.Context, lane int, req interface{}) error
+//@ ghost curLane int
+//
+//@ pure mlwf(c *MultiLine) bool = c != nil && c.slotSize > 0 && len(c.qs) == c.slotSize && errsOK() && pipe.ErrQueueFull != nil && pipe.ErrQueueClosed != nil && forall i int :: { c.qs[i] } 0 <= i && i < len(c.qs) ==> c.qs[i] != nil && c.qs[i].reqList != nil && !held(c.qs[i].lock) && forall j int :: { c.qs[j] } 0 <= j && j < len(c.qs) && j != i ==> c.qs[j].reqList != c.qs[i].reqList
+//
+//@ lemma enqueued_by_addCallCtx(item interface{})
+//@   trusted the queues of a MultiLine are unexported and addCallCtx is their only producer: every item is a non-nil *AsyncCtx
+//@   ensures tag(item) == tagof(*AsyncCtx) ==> *AsyncCtx(item) != nil
+//
+//@ func newAsyncCtx
+//@   ensures result != nil && isfresh(result) && result.ctx == ctx && result.call == call && result.param == param
+//@   modifies region($alloc)
+//
+//@ func AsyncCtx.SetR
+//@   trusted channel send on the request's own 1-buffered result channel (R() receives it); the contract only records whose result is delivered
+//@   requires #own err == callerr(m.ctx, curLane, m.param) && (err == nil ==> r == callres(m.ctx, curLane, m.param)) && (err != nil ==> r == nil)
+//@   modifies
+//
+//@ func MultiLine.IndexOf
+//@   requires c != nil && c.slotSize > 0
+//@   ensures 0 <= result && result < c.slotSize && result == nsi(i, c.slotSize)
+//@   modifies
+//
+//@ func MultiLine.addCallCtx
+//@   requires mlwf(c) && callCtx != nil
+//@   ensures #request result0 != nil && isfresh(result0) && result0.ctx == ctx && result0.call == callCtx.call && result0.param == callCtx.param
+//@   ensures #lane result1 == nil ==> forall e *list.Element :: { c.qs[nsi(callCtx.hashIndex, c.slotSize)].reqList.lmem[e] } c.qs[nsi(callCtx.hashIndex, c.slotSize)].reqList.lmem[e] ==> (cs(c.qs[nsi(callCtx.hashIndex, c.slotSize)].reqList.lmem[e]) || e.Value == any(result0))
+//@   ensures #refused result1 != nil ==> forall i int :: { c.qs[i] } 0 <= i && i < len(c.qs) ==> c.qs[i].reqList.lmem == cs(c.qs[i].reqList.lmem)
+//@   ensures #otherlanes forall i int :: { c.qs[i] } 0 <= i && i < len(c.qs) && i != nsi(callCtx.hashIndex, c.slotSize) ==> c.qs[i].reqList.lmem == old(c.qs[i].reqList.lmem)
+//@   modifies q.Q.closed, list.List.lmem, list.List.lcnt, list.Element.lrk, list.Element.Value, region($alloc)
+//
+//@ func funcval ac.call
+//@   trusted user callback
+//@   requires #lane sIndex == curLane
+//@   ensures rsp == callres(ctx, sIndex, req) && err == callerr(ctx, sIndex, req)
+//@   modifies q.Q.closed, list.List.lmem, list.List.lcnt, list.Element.lrk, list.Element.Value, region($alloc)
+//
+//@ func MultiLine.popLoop
+//@   requires mlwf(c) && 0 <= index && index < c.slotSize && curLane == index
+//@   aftercall PopAnyway use enqueued_by_addCallCtx(result)
+//@   modifies q.Q.closed, list.List.lmem, list.List.lcnt, list.Element.lrk, list.Element.Value, region($alloc)
+//@   loop 1
+//@     invariant mlwf(c) && 0 <= index && index < c.slotSize && mq == c.qs[index] && curLane == index
